@@ -523,6 +523,7 @@ func handTo(site uint32, me, to int) {
 		return
 	}
 	switches++
+	trace(EvSwitch, me, to, int(site))
 	v := uint64(site)<<16 | uint64(me)<<8 | uint64(to)
 	mix(v)
 	switchSig ^= v + 0x9E3779B97F4A7C15 + (switchSig << 6) + (switchSig >> 2)
@@ -574,6 +575,7 @@ func Yield(site uint32) {
 					statInjectedGen++
 				}
 				mix(uint64(site) | 1<<40)
+				trace(EvInject, me, 0, int(site))
 				panic(InjectedPanic{Site: site})
 			}
 		}
@@ -667,6 +669,7 @@ func TaskDone(id int) {
 	}
 	if to >= 0 {
 		switches++
+		trace(EvDone, id, to, 0)
 		mix(uint64(0xD0)<<32 | uint64(id)<<8 | uint64(to))
 		turn = int32(to)
 	} else {
@@ -766,6 +769,7 @@ func wakeWaiters(p unsafe.Pointer) {
 func park(p unsafe.Pointer) {
 	me := int(turn)
 	statBlocked++
+	trace(EvBlock, me, 0, 0)
 	tstate[me] = tsBlocked
 	tblock[me] = p
 	to := pickAny(me)
